@@ -1,4 +1,5 @@
 //go:debug asynctimerchan=0
+//go:debug randseednop=0
 
 package main
 
@@ -13,6 +14,7 @@ import (
 	"hash/fnv"
 	"io"
 	"log"
+	mrand "math/rand"
 	"os"
 	"runtime"
 	"sort"
@@ -323,6 +325,9 @@ func execRun(t *testing.T, sc *Scenario, x *X) (out runOutcome) {
 		}()
 		synctest.Test(t, func(t *testing.T) {
 			simrt.ResetRun()
+			// net/http draws jitter for its shutdown polling from the global math/rand
+			// source: pin it per run so that virtual timestamps replay exactly
+			mrand.Seed(20260926)
 			x.simStart = time.Now()
 			defer func() {
 				x.SimTime = time.Since(x.simStart)
